@@ -123,16 +123,30 @@ def execute(ctx, case):
                                      score_class=sc, equal_class=ec)
         C(fl == gs and list(fl.groups) == sorted(set(pg) | set(ng)), "from_labels differs from the constructor", "gs-from-labels")
 
-    def op_group_cm(tag=""):
+    def op_group_cm(tag="", ths=ths, sample=None):
         gcm = gs.group_cm(ths).matrix
-        tot = np.zeros((len(ths), 2, 2), dtype=int)
+        idx = np.arange(len(ths)) if sample is None else sample  # long vectors: recount at a sample of positions
+        tot = np.zeros((len(idx), 2, 2), dtype=int)
         for i, g in enumerate(gs.groups):
             fp, fn = pos[pg == g], neg[ng == g]
-            ref = np.array([R.count_cm(fp.tolist(), fn.tolist(), t, sc, ec) for t in ths.tolist()])
-            C(np.array_equal(gcm[i], ref), "group_cm differs from counting on the rows carrying the label" + tag, "gs-group-cm", group=str(g))
-            C(np.array_equal(Scores(fp, fn, score_class=sc, equal_class=ec).cm(ths).matrix, ref), "Scores(filtered).cm differs from counting", "gs-filtered-cm")
+            ref = np.array([R.count_cm(fp.tolist(), fn.tolist(), t, sc, ec) for t in ths[idx].tolist()])
+            C(np.array_equal(gcm[i][idx], ref), "group_cm differs from counting on the rows carrying the label" + tag, "gs-group-cm", group=str(g), thresholds=ths[idx])
+            if sample is None:
+                C(np.array_equal(Scores(fp, fn, score_class=sc, equal_class=ec).cm(ths).matrix, ref), "Scores(filtered).cm differs from counting", "gs-filtered-cm")
             tot += ref
-        C(np.array_equal(tot, gs.cm(ths).matrix) and np.array_equal(gcm.sum(axis=0), gs.cm(ths).matrix), "per-group matrices do not sum to the overall matrix" + tag, "gs-partition")
+        C(np.array_equal(tot, gs.cm(ths).matrix[idx]) and np.array_equal(gcm.sum(axis=0), gs.cm(ths).matrix), "per-group matrices do not sum to the overall matrix" + tag, "gs-partition")
+
+    def op_group_cm_near():
+        # successive queries whose threshold arrays differ by an ulp around a score (and print identically), and long vectors
+        # that differ only in the interior: every call is judged on its own thresholds
+        for s_ in rs.choice(allv, 2).tolist():
+            for t_ in (np.nextafter(s_, -np.inf), s_, np.nextafter(s_, np.inf)):
+                op_group_cm(" (thresholds an ulp apart in successive calls)", ths=np.array([t_, allv.min() - 1.0]))
+        base = np.sort(rs.choice(allv, 1200))
+        for _ in range(2):
+            v = base.copy()
+            v[3:-3] = np.sort(rs.uniform(allv.min(), allv.max(), len(v) - 6))
+            op_group_cm(" (long vectors differing in the interior)", ths=v, sample=rs.integers(0, len(v), 12))
 
     def op_groupwise():
         for m in ("fnr", "tpr", "topr"):
@@ -156,7 +170,7 @@ def execute(ctx, case):
                     C(len(b.pos) == len(pos) and len(b.neg) == len(neg), "by_label: class sizes not preserved", "gs-bs-label")
         return run
 
-    ops = [op_swap, op_from_labels, op_group_cm, op_groupwise, op_getitem, op_getitem]
+    ops = [op_swap, op_from_labels, op_group_cm, op_groupwise, op_getitem, op_getitem] + ([op_group_cm_near] if case.get("_seed", 0) % 3 == 0 else [])
     for meth in ("replacement", "single_pass", "dynamic"):
         for strat in (None, "by_label", "by_group"):
             if strat == "by_group" and not strata_ok and meth != "replacement":
